@@ -331,6 +331,7 @@ pub fn slab(rec: &mut Recorder, rng: &mut Rng, thorough: bool, outdir: &str) {
             if !had_reorder || ops_txt.first().map_or(false, |o| o.starts_with("r:")) {
                 let all: Vec<u8> = (0..count).flat_map(|i| slab.get(i).to_vec()).collect();
                 rec.put(&format!("slab {ss} {} {}", hex(&syms.concat()), ops_txt.join(",")), &hex(&all));
+                rec.put(&format!("slabb {ss} {} {}", hex(&syms.concat()), ops_txt.join(",")), &hex(&all));
             }
         }
     }
@@ -366,6 +367,7 @@ pub fn slab(rec: &mut Recorder, rng: &mut Rng, thorough: bool, outdir: &str) {
         // reading back through a mapping with out-of-range entries panics on both sides; compare only when defined
         let ans = match r { Ok(v) => hex(&v.concat()), Err(_) => "err".into() };
         rec.put(&format!("slab {ss} {} {ops}", hex(&syms.concat())), &ans);
+        rec.put(&format!("slabb {ss} {} {ops}", hex(&syms.concat())), &ans);
         rec.count(if bad { "slab_malformed_mapping" } else { "slab_permutation_control" });
     }
     // the paired borrow refuses dest == src and out-of-range indices
